@@ -51,3 +51,21 @@ package roi
 //@   calls_havoc
 //@   modifies *
 //@   ensures result1 == nil ==> result0 != nil
+
+// Partition / SimplePartition (C20): the batch size divides only when it is at least 1 (batchsize=0 in
+// the query string must be refused, not answered with a recovered divide-by-zero panic).
+//@ func Data.Partition
+//@   prop C20
+//@   requires d != nil
+//@   safety_off
+//@   calls_havoc
+//@   modifies *
+//@   assert at "zleft := dz % batchsize": batchsize >= 1
+
+//@ func Data.SimplePartition
+//@   prop C20
+//@   requires d != nil
+//@   safety_off
+//@   calls_havoc
+//@   modifies *
+//@   assert at "zleft := dz % batchsize": batchsize >= 1
